@@ -23,7 +23,7 @@ BOUNDS = {
         "As quick, plus: string length grid 0..6 for each capacity 4/8/16, raw-value shapes, 3 solver-chosen calls from the top level and after "
         "four preludes (up to 7 calls in total), two faults on the longer shapes, unwrite with 3 members (15^3 value combinations x 2^3 omitempty "
         "choices) for each capacity and both destinations, symbolic member names (1 byte from Sigma24: quote, backslash, newline, letters), "
-        "unwname with 3 keys and 2-byte keys. Same OUTSIDE list as quick."
+        "unwname with 3 one-byte keys and with a single 2- or 3-byte key. Same OUTSIDE list as quick."
     ),
 }
 ASSUMPTIONS = [
@@ -59,7 +59,7 @@ def unwrite(L, pre, k, c, nl, ws=0, nsoff=True, sym=False, ptr=False, probe=Fals
 
 
 def unwname(L, n, c, nl, ws=0, nsoff=False, ptr=False, **kw):
-    cov = ["all-written"] + ([] if nsoff else ["duplicate-key"])
+    cov = ["all-written"] + ([] if nsoff or n < 2 else ["duplicate-key"])
     L.append(ob("unwname/n=%d/cap=%d/name=%d/ws=%d/nsoff=%d/ptr=%d" % (n, c, nl, ws, nsoff, ptr),
                 "jsontext", "VerifC07UnwriteName", [n, c, nl, ws, nsoff, ptr], covers=cov, **kw))
 
@@ -129,7 +129,8 @@ def obligations(tier):
     unwname(L, 2, 4, 1)
     unwname(L, 2, 8, 1, ws=1, nsoff=True)
     if not q:
-        unwname(L, 2, 4, 2, ptr=True)
+        unwname(L, 1, 4, 2, ptr=True)
+        unwname(L, 1, 8, 3, ws=1)
         unwname(L, 3, 8, 1)
         unwname(L, 3, 16, 1, ws=1, nsoff=True, ptr=True)
     for o in L:
